@@ -1,8 +1,10 @@
 """C17 - snapshot and restore reproduce the database exactly.
 Proof: coq/theories/Properties/C17.v (models Db/Content.v, Db/Timeline.v, Db/Snapshot.v, Db/RwLock.v,
-Db/Reader.v, Db/RestoreX.v, Db/RestoreJoin.v).
+Db/Reader.v, Db/RestoreX.v, Db/RestoreJoin.v, Db/SnapPath.v).
 Correspondence: histories (state A through real stores and raw writes; Snapshot / SnapshotInTx in a
-read or write transaction / StreamToWriter; arbitrary further operations; RestoreSnapshot and
+read or write transaction / StreamToWriter; snapshots through path templates - every placeholder,
+relative / absolute, existing files and directories at the target, the default path, the database
+opened elsewhere or relatively - read back from the path the call returned; arbitrary further operations; RestoreSnapshot and
 RestoreFromReader through readers of every behaviour the io.Reader contract allows - chunk sizes,
 zero-length reads, EOF with or after the last bytes, an error after k bytes, WriterTo / Seeker /
 file / buffered flavours; GetSnapshotId; GetTimelineId in every mode; restore listeners, also ones
@@ -61,7 +63,13 @@ def split_ops(case):
             i += 1
             if kind == "upd":
                 i = wops(wops(i + 1))
-        elif op == "restore":
+        elif op == "snapp":
+            i += 9
+            kind = t[i]
+            i += 1
+            if kind == "upd":
+                i = wops(wops(i + 1))
+        elif op in ("restore", "open"):
             i += 1
         elif op == "restorer":
             i += 8 + int(t[i + 7])
@@ -136,6 +144,45 @@ def view_digest(raw):
     return "v:%d:%08x" % (len(ents), fnv32(",".join(ents) if ents else "-"))
 
 
+def unhex(x):
+    if x in ("-", "", None):
+        return ""
+    try:
+        return bytes.fromhex(x).decode("utf-8", "replace")
+    except ValueError:
+        return x
+
+
+def snap_path(op):
+    """snapp <t|d> <template|-> <root> <date> <time> <dbdir> <dbfile> <dbpath> <-|g|d> <kind> ... -> dict"""
+    return dict(default=op[1] == "d", template=unhex(op[2]), root=unhex(op[3]), date=unhex(op[4]), time=unhex(op[5]),
+                dbpath=unhex(op[8]), pre=op[9], kind=op[10], commit=len(op) > 11 and op[11] == "1")
+
+
+def describe_path(sp, g):
+    """how the snapshot was asked for and where the implementation says it is"""
+    ask = "Snapshot(GetDefaultSnapshotPath() = %r)" % unhex(bracket(g, "D")) if sp["default"] else "Snapshot(%r)" % sp["template"]
+    ret = bracket(g, "P")
+    stray = bracket(g, "X")
+    txt = "%s [database %s, date %s, time %s]" % (ask, sp["dbpath"], sp["date"], sp["time"])
+    if ret not in (None, "-"):
+        txt += " returned %r" % unhex(ret)
+    if stray not in (None, "-"):
+        txt += "; besides the returned path the call created or changed: %s" % ", ".join(repr(unhex(x)) for x in stray.split(","))
+    return txt
+
+
+def strip_message(line):
+    """the text of an error is not compared with the model"""
+    out = []
+    for g in line.split(" | "):
+        k = g.find(" E[")
+        if k >= 0:
+            g = g[:k] + g[g.find("]", k) + 1:]
+        out.append(g)
+    return " | ".join(out)
+
+
 def reader_script(op):
     """restorer <k> <flavour> <len> <eofd> <failAt|-> <failWd> <rest> <npre> <pre>... -> dict"""
     ln = int(op[3])
@@ -184,7 +231,40 @@ def oracle(case, impl):
         live = parse_dump(bracket(g, "L") or "-")
         head = g.split(" L[")[0].split()
         kind = op[0]
-        if kind == "snap":
+        if kind == "snapp":
+            sp = snap_path(op)
+            where = describe_path(sp, g)
+            stray, written = bracket(g, "X"), bracket(g, "W")
+            if sp["pre"] == "d":
+                # the expanded path is a directory: the call cannot write its file; it has to fail and to change nothing
+                if head[:2] != ["snap", "failed"]:
+                    return ("C17:snapshot-path", "the path of the snapshot is a directory, yet the call reported success: %s" % where, i)
+                if live != live_before:
+                    return ("C17:snapshot-changes-live", "a snapshot that failed changed the live database: %s" % where, i)
+                if stray != "-":
+                    return ("C17:snapshot-path", "a snapshot that failed left files behind: %s" % where, i)
+                live_before = live
+                continue
+            if head[0] != "snap" or len(head) < 2 or head[1] == "failed" or head[1].startswith(("error", "unreadable")):
+                msg = unhex(bracket(g, "E")) if head[1:2] == ["failed"] else show_head(head[:2])
+                return ("C17:snapshot-failed", "snapshot operation failed (%s): %s" % (msg[:200], where), i)
+            f = parse_dump(bracket(g, "F") or "-")
+            files.append(dict(kind="snap", id=head[1], at=live_before, op=i, content=f, raw=bracket(g, "F")))
+            if strip_markers(f) != strip_markers(live_before):
+                lost = len([p for p in strip_markers(live_before) if p not in f])
+                return ("C17:snapshot-content", "the file at the path the snapshot call returned does not hold the content committed at snapshot time "
+                        "(%d of %d entries missing): %s" % (lost, len(strip_markers(live_before)), where), i)
+            if f.get(SNAPID) != "=05" + head[1] or f.get(RESET) != "=0101":
+                return ("C17:snapshot-markers", "the file at the returned path lacks the snapshot-id / reset markers: %s" % where, i)
+            if written != "1":
+                return ("C17:snapshot-path", "the call did not write the file at the path it returned: %s" % where, i)
+            if stray != "-":
+                return ("C17:snapshot-path", "the snapshot call wrote files other than the one it returned: %s" % where, i)
+            if sp["kind"] == "upd" and sp["commit"]:
+                pending = None
+            elif live != live_before:
+                return ("C17:snapshot-changes-live", "taking a snapshot changed the live database: %s" % where, i)
+        elif kind == "snap":
             if head[0] != "snap" or len(head) < 2 or head[1].startswith(("error", "unreadable")):
                 return ("C17:snapshot-failed", "snapshot operation failed: %s" % show_head(head)[:300], i)
             f = parse_dump(bracket(g, "F") or "-")
@@ -346,8 +426,49 @@ def replay_case(c, harness, case, hangms=0, listenms=0):
     return (cl[0], lines[0]) if lines and cl else (None, None)
 
 
+def produces_file(op):
+    return op[0] in ("snap", "stream") or (op[0] == "snapp" and op[9] != "d")
+
+
+def without_op(ops, i):
+    """the history without operation i; the file numbers of later restores follow.  None when a
+    restore asks for the file that operation i produces."""
+    if not produces_file(ops[i]):
+        return ops[:i] + ops[i + 1:]
+    f = len([o for o in ops[:i] if produces_file(o)])
+    out = []
+    for j, o in enumerate(ops):
+        if j == i:
+            continue
+        if o[0] in ("restore", "restorer"):
+            k = int(o[1])
+            if k == f:
+                return None
+            if k > f:
+                o = [o[0], str(k - 1)] + o[2:]
+        out.append(o)
+    return out
+
+
+SIMPLE_TEMPLATES = ["bk", "bk-__DATE__", "bk-__TIME__", "bk-__DB_FILE__", "__DB_DIR__/bk", "bk-DATE", "bk-TIME", "bk-DB_FILE", "DB_DIR/bk"]
+
+
 def simpler_readers(op):
-    """candidates that replace a restore through a reader by simpler ones"""
+    """candidates that replace a restore through a reader by simpler ones, a snapshot through a path
+    template by one to a plain file name"""
+    if op[0] == "snapp" and op[9] != "d":
+        yield ["snap"] + op[10:]
+    if op[0] == "snapp":
+        # Snapshot(default path) -> a template; a long template -> the shortest usual ones
+        cur = unhex(op[2]) if op[1] == "t" else None
+        if cur not in SIMPLE_TEMPLATES:
+            for tpl in SIMPLE_TEMPLATES:
+                yield [op[0], "t", tpl.encode().hex()] + op[3:]
+    if op[0] == "snapp" and op[9] != "d":
+        if op[9] != "-":
+            yield op[:9] + ["-"] + op[10:]
+        if op[10] != "plain":
+            yield op[:10] + ["plain"]
     if op[0] != "restorer":
         return
     yield ["restore", op[1]]
@@ -380,15 +501,17 @@ def shrink(c, harness, case, key, budget=40):
         return case
     i = 0
     while i < len(ops) - 1 and budget > 0:
-        if ops[i][0] in ("snap", "stream"):
+        cand = without_op(ops, i)
+        if cand is None:
             i += 1
             continue
         budget -= 1
-        r = attempt(ops[:i] + ops[i + 1:])
+        r = attempt(cand)
         if r is not None:
             ops = r
         else:
             i += 1
+    budget = max(budget, 15)     # the simplification of single operations has a share of its own
     for i in range(len(ops)):
         progress = True
         while progress and budget > 0:
@@ -446,17 +569,19 @@ def main(argv):
         "hand-written models Db/Content.v, Db/Timeline.v, Db/Snapshot.v of boltz/db.go (snapshot/restore/timeline bookkeeping)",
         "Db/Reader.v: the io.Reader contract as scripts (chunk sizes, zero-length reads, EOF with/after data, failure position) and io.Copy's loop; Db/RestoreX.v: RestoreFromReader + database-using listeners on top of Db/Snapshot.v; the bytes of a file are abstract (positions), bbolt's file format is not modelled",
         "Db/RestoreJoin.v: listeners as transaction threads gated by the reopen, on top of Db/RwLock.v",
+        "Db/SnapPath.v: strings.ReplaceAll and the eight placeholder replacements of SnapshotInTx transcribed over byte strings; the file system as a map from names to snapshot files; the expansion's environment (date, time, filepath.Dir/Base of the database path) is taken from the harness as observed",
         "Db/RwLock.v: sync.RWMutex modelled by its specification (readers exclude the writer; optional writer preference)",
         "NOT modelled, exercised only: os.Rename, bbolt Open/Close/CopyFile/WriteTo, sync.RWMutex, goroutine scheduling (all schedules are quantified over on the model only)",
         "uuid.NewString freshness (model: a counter)",
         "extraction (ExtrOcamlBasic only) + extraction/c17_driver.ml + drv_common.ml",
-        "Go harness cmd/storageharness/c17.go, c17_stores.go, c17_readers.go (generators, scripted readers, listeners, watchdog, bbolt walk, diff of store transactions into raw writes) and this comparison",
+        "Go harness cmd/storageharness/c17.go, c17_stores.go, c17_readers.go, c17_paths.go (generators, scripted readers, listeners, watchdog, bbolt walk, diff of store transactions into raw writes) and this comparison",
     ]
     c.assumptions = [
         "meta/snapshotId, meta/timelineId hold strings or nil, meta/resetTimeline a bool or nil (what the library and the generated transactions write)",
         "transactions obtain their bbolt transaction through Db.View/Update/Batch (so they hold the read lock)",
         "one restore at a time in the racing runs (the model covers any number of restorers)",
         "restore listeners that write do so outside the snapshot markers (own keys of a bucket lsn, GetTimelineId): the content oracle ignores exactly those paths when such listeners are registered",
+        "snapshot paths stay inside the history's own directory and never name the database file itself (Snapshot onto the open database file truncates it - outside the property)",
         "a restore (copy of <= a few hundred KB, close, two renames, open) and its listeners finish within the watchdog's 3 s unless something blocks them",
     ]
     proof_ok = c.proof_step(FILES)
@@ -493,14 +618,17 @@ def main(argv):
         ops = split_ops(case)
         nops += len(ops)
         kinds = [o[0] for o in ops]
-        if ("restore" in kinds or "restorer" in kinds) and "snap" in kinds:
+        if ("restore" in kinds or "restorer" in kinds) and ("snap" in kinds or "snapp" in kinds):
             distinct.add(case)
         v = oracle(case, i)
         if v:
             key, msg, at = v
             if key not in reported:
                 small = shrink(c, harness, case, key) if not c.replay else case
-                simpl = replay_case(c, harness, small)[1] if small != case else i
+                simpl = i
+                if small != case:       # the case as executed (a run's own directory and clock are part of it) with its observation
+                    cl2, simpl = replay_case(c, harness, small)
+                    small = cl2 or small
                 v2 = oracle(small, simpl) if simpl else None
                 if v2 and v2[0] == key:      # describe the shrunk history
                     msg, at, ops = v2[1], v2[2], split_ops(small)
@@ -509,7 +637,7 @@ def main(argv):
                 c.violation(key, msg + " [operation %d: %s]" % (at, " ".join(ops[at])[:120]),
                             dict(case=small, impl=simpl, original_case=case, operation=at))
                 reported.add(key)
-        elif i != m:
+        elif strip_message(i) != m:
             disagreements.append((case, i, m))
 
     if c.replay:
@@ -545,6 +673,9 @@ def main(argv):
                      "(plain Update/View, Batch, Db.Snapshot, RootBucket in a transaction, SnapshotInTx in a write transaction, "
                      "nested Db.Update/Batch joining the context's transaction, database-using restore listeners + chunked readers)")
     rd = [o for x in cases if x.startswith("H") for o in split_ops(x) if o[0] == "restorer"]
+    ps = [o for x in cases if x.startswith("H") for o in split_ops(x) if o[0] == "snapp"]
+    c.cov["path_snapshots"] = len(ps)
+    c.cov["path_templates_distinct"] = len(set((o[1], unhex(o[2]).replace(unhex(o[3]), "<root>")) for o in ps))
     c.cov["reader_restores"] = len(rd)
     c.cov["reader_behaviours_distinct"] = len(set(" ".join(o[2:]) for o in rd))
     hs = [k for k, x in enumerate(cases) if x.startswith("H")]
@@ -558,7 +689,7 @@ def main(argv):
         pass
     if disagreements and not c.violations:
         case, i, m = disagreements[0]
-        gi, gm = i.split(" | "), m.split(" | ")
+        gi, gm = strip_message(i).split(" | "), m.split(" | ")
         at = next((k for k, (x, y) in enumerate(zip(gi, gm)) if x != y), 0)
         c.violation("C17:correspondence",
                     "model Db/Snapshot.v and boltz.DbImpl differ on %d histories without a property violation, e.g. operation %d: impl %s model %s"
